@@ -168,6 +168,15 @@ func Start(s Settings, dir string) (*Pipeline, error) {
 	cfg.UserAgent = "verifnet"
 	cfg.RandomLocalIP = false
 	domainscrawl.Reset()
+	// the operator's options go through the same post-processing as on the command line (defaults, derived values,
+	// whatever is done to lists such as --warc-discard-status); the paths it derives are then pointed back at the scratch
+	// directory
+	jobPath, tempDir := cfg.JobPath, cfg.WARCTempDir
+	if err := config.GenerateCrawlConfig(); err != nil {
+		return nil, fmt.Errorf("GenerateCrawlConfig: %w", err)
+	}
+	cfg.JobPath, cfg.WARCTempDir = jobPath, tempDir
+	cfg.UseSeencheck = s.Seencheck
 	if err := os.MkdirAll(cfg.JobPath, 0o755); err != nil {
 		return nil, err
 	}
